@@ -24,9 +24,12 @@ var (
 )
 
 var vpBackendChunk []byte
+var vpStepTunnel *Tunnel
+var vpSeenTarget, vpSeenAddr string
 
 func vpResetC01() {
 	vpBackendChunk = nil
+	vpStepTunnel, vpSeenTarget, vpSeenAddr = nil, "", ""
 	vpDialLog = nil
 	vpDialConns = nil
 	vpCbLog = nil
@@ -56,6 +59,10 @@ func vpCallback(kind string) func(context.Context, string) (bool, error) {
 		vpCbLog = append(vpCbLog, kind)
 		if kind == "host" {
 			vpHostArg = s
+			if vpStepTunnel != nil {
+				// what a policy that reads the tunnel (security.CheckSession) sees at this moment
+				vpSeenTarget, vpSeenAddr = vpStepTunnel.TargetServer, vpStepTunnel.RemoteAddr
+			}
 		}
 		if kind == "cookie" {
 			vpCookieArg = s
@@ -170,6 +177,11 @@ func VP_C01_step() {
 	}
 	tr := &vpTransport{in: [][]byte{vpPacket(pt, body)}}
 	tun := &Tunnel{transportIn: tr, transportOut: tr, User: vpUser()}
+	// what the accepted token bound the tunnel to (security.CheckPAACookie writes these fields and
+	// security.CheckSession compares the requested host and the client address against them)
+	tokHost, tokAddr := vpStringN("token-host", 2), vpStringN("token-addr", 2)
+	tun.TargetServer, tun.RemoteAddr = tokHost, tokAddr
+	vpStepTunnel = tun
 	var rwc *vpConn
 	if pre >= 4 {
 		rwc = &vpConn{block: true}
@@ -247,6 +259,16 @@ func VP_C01_step() {
 	for _, c := range vpDialConns {
 		vpAssert(len(c.written) == 0, "nothing-relayed-in-the-step-that-dials")
 	}
+	// ---- C03/C04: the host policy is consulted with the tunnel's token-bound fields intact ----
+	for _, k := range vpCbLog {
+		if k == "host" {
+			vpAssert(vpSeenTarget == tokHost && vpSeenAddr == tokAddr, "token-bound-host-and-address-intact-when-the-host-policy-is-consulted")
+		}
+	}
+	if len(vpDialLog) == 0 {
+		vpAssert(tun.TargetServer == tokHost, "token-host-unchanged-without-a-connection")
+	}
+	vpAssert(tun.RemoteAddr == tokAddr, "token-address-never-changed-by-packets")
 	// ---- refusals ----
 	if len(vpCbLog) > 0 && !vpCbRes[0] {
 		vpReach("refused")
